@@ -113,8 +113,9 @@ class ChargingPriceUpdate(SimulationUpdateFunction):
         def stop_condition(value: int) -> bool:
             return value < current_sim_time
 
-        # parse the most recently available charger_id price data up to the current sim time
-        initial: immutables.Map[str, immutables.Map[ChargerId, Currency]] = immutables.Map()
+        # parse the charger_id price data that has become due up to the current sim time, keeping the
+        # rows in the order of the (time-sorted) file: a later row supersedes an earlier one
+        initial: Tuple[Tuple[str, ChargerId, Currency], ...] = ()
         charger_update = ft.reduce(
             _add_row_to_this_update,
             self.reader.read_until_stop_condition(stop_condition),
@@ -129,8 +130,12 @@ class ChargingPriceUpdate(SimulationUpdateFunction):
             # we are applying the same values across all Stations
             # the default constructor creates one station_id called "default" and we
             # apply it to every station here.
+            empty: immutables.Map[ChargerId, Currency] = immutables.Map()
+            default_prices = ft.reduce(
+                lambda prices, entry: prices.set(entry[1], entry[2]), charger_update, empty
+            )
             result = ft.reduce(
-                lambda sim, s_id: _update_station_prices(sim, s_id, charger_update["default"]),
+                lambda sim, s_id: _update_station_prices(sim, s_id, default_prices),
                 sim_state.get_station_ids(),
                 sim_state,
             )
@@ -154,39 +159,31 @@ class ChargingPriceUpdate(SimulationUpdateFunction):
 
 
 def _add_row_to_this_update(
-    acc: immutables.Map[str, immutables.Map[ChargerId, Currency]],
+    acc: Tuple[Tuple[str, ChargerId, Currency], ...],
     row: Dict[str, str],
-) -> immutables.Map[str, immutables.Map[ChargerId, Currency]]:
+) -> Tuple[Tuple[str, ChargerId, Currency], ...]:
     """
-    adds a single row to an accumulator that is storing only the most recently
-    observed {StationId|GeoId}/charger_id/currency combinations
+    adds a single row to an accumulator that is storing the observed
+    {StationId|GeoId}/charger_id/currency combinations in the order in which they were read
 
 
     :param acc: the accumulator
     :param row: the row to add
     :return: the updated accumulator
     """
-    rows = acc
-
     try:
         price = float(row["price_kwh"])
         charger_id = row["charger_id"]
         if "station_id" in row:
-            station_id = row["station_id"]
-            this_entry = rows[station_id] if rows.get(station_id) else immutables.Map()
-            updated = DictOps.add_to_dict(rows, station_id, this_entry.set(charger_id, price))
-            return updated
+            return acc + ((row["station_id"], charger_id, price),)
         elif "geoid" in row:
-            geoid = row["geoid"]
-            this_entry = rows[geoid] if rows.get(geoid) else immutables.Map()
-            updated = DictOps.add_to_dict(rows, geoid, this_entry.set(charger_id, price))
-            return updated
+            return acc + ((row["geoid"], charger_id, price),)
         else:
             log.error(f"missing geoid|station_id for row: {row}")
-            return rows
+            return acc
     except Exception as e:
         log.error(f"error: {e.args} for row {row}")
-        return rows
+        return acc
 
 
 def _update_station_prices(
@@ -226,21 +223,21 @@ def _update_station_prices(
 
 
 def _map_to_station_ids(
-    this_update: immutables.Map[str, immutables.Map[ChargerId, Currency]],
+    this_update: Tuple[Tuple[str, ChargerId, Currency], ...],
     sim: SimulationState,
 ) -> immutables.Map[StationId, immutables.Map[ChargerId, Currency]]:
     """
     in the case that updates are written by GeoId, map those to StationIds
 
-    :param this_update: the update, which may be by StationId or GeoId
+    :param this_update: the update entries in the order they were read, each by StationId or GeoId
     :param sim: the SimulationState provides h3 resolution and lookup tables
     :return: the price data organized by StationId
     """
-    updated = {}  # refactor using immutables.Map()?
-    for k in sorted(this_update.keys()):
+
+    def _station_ids_named_by(k: str) -> Tuple[StationId, ...]:
         if k in sim.stations:
             # k is a StationId; leave as is
-            updated.update({k: this_update[k]})
+            return (k,)
         else:
             # k may be a geoid
             try:
@@ -254,7 +251,7 @@ def _map_to_station_ids(
                 elif res < sim.sim_h3_search_resolution:
                     search_geoids = tuple(h3.h3_to_children(k, sim.sim_h3_search_resolution))
 
-                station_ids = (
+                return tuple(
                     station_id
                     for search_geoid in search_geoids
                     if sim.s_search.get(search_geoid)
@@ -263,15 +260,21 @@ def _map_to_station_ids(
                     if res <= sim.sim_h3_search_resolution
                     or h3.h3_to_parent(sim.stations[station_id].geoid, res) == k
                 )
-
-                # all of these station ids should get entries managers the provided geoid
-                # (a station named by several overlapping regions keeps the prices of each of them)
-                for station_id in station_ids:
-                    previous = updated.get(station_id, immutables.Map())
-                    updated.update({station_id: previous.update(this_update[k])})
-
             except ValueError as e:
                 # todo: handle failure here
                 log.debug(f"tried to update charging price for key {k} but failed.")
+                return ()
+
+    # the entries are applied in the order in which they were read, whichever way they name a station
+    # (its id, or one of several overlapping regions): a station keeps, per charger, the price of the
+    # latest entry that names it, so the outcome does not depend on how many entries fall into one step
+    named: Dict[str, Tuple[StationId, ...]] = {}
+    updated: Dict[StationId, immutables.Map[ChargerId, Currency]] = {}
+    for k, charger_id, price in this_update:
+        if k not in named:
+            named[k] = _station_ids_named_by(k)
+        for station_id in named[k]:
+            previous = updated.get(station_id, immutables.Map())
+            updated[station_id] = previous.set(charger_id, price)
 
     return immutables.Map(updated)
